@@ -80,6 +80,26 @@ def run_case(arg):
                 else:
                     continue
                 break
+            # preprocess is a function of its arguments and the current scan directions: the SAME object, first
+            # preprocessed with another direction / pad fraction / knot count, must give the exact placement again
+            other = [35.0, (theta + 90) % 360, 200.5][idx % 3]
+            for k in ((1, 2) if not quick else (1 + idx % 2,)):
+                if (idx + k) % 2:       # only the direction changes between the two calls ...
+                    dc = build(images, [other] * nimg, pf, k)
+                else:                   # ... or the pad fraction and the knot count change as well
+                    dc = build(images, [other] * nimg, min(pf + 0.125, 0.5), 3 if k == 1 else 1)
+                dc.scan_direction_degrees = [theta] * nimg
+                dc.preprocess(pad_fraction=pf, pad_value="median", kde_sigma=0.5, number_knots=k,
+                              show_merged=False, show_images=False)
+                if tuple(dc.shape[1:]) != (case["h"], case["w"]):
+                    bad("C15:repeat-preprocess", f"second preprocess on the same object: canvas {tuple(dc.shape[1:])} != {(case['h'], case['w'])}")
+                    break
+                xa, ya = coords(dc, nimg - 1)
+                dev = max(np.abs(xa - x_want).max(), np.abs(ya - y_want).max()) if xa.shape == (R, C) else float("nan")
+                if not dev <= 1e-9:
+                    bad("C15:repeat-preprocess", f"{k} knot(s): after an earlier preprocess with direction {other} the coordinates deviate "
+                                                 f"from the exact placement by {dev:.4g} px")
+                    break
             # identical images, same scan direction: fixed point of translation alignment
             same = [images[0]] * nimg
             for k, u in ((1, 8), (2, 1), (3, 4), (4, 3), (1, 5), (2, 7), (3, 16)) if not quick else \
